@@ -1,0 +1,38 @@
+# Copyright 2020 Google LLC.
+#
+# Licensed under the Apache License, Version 2.0 (the "License");
+# you may not use this file except in compliance with the License.
+# You may obtain a copy of the License at
+#
+#     https://www.apache.org/licenses/LICENSE-2.0
+#
+# Unless required by applicable law or agreed to in writing, software
+# distributed under the License is distributed on an "AS IS" BASIS,
+# WITHOUT WARRANTIES OR CONDITIONS OF ANY KIND, either express or implied.
+# See the License for the specific language governing permissions and
+# limitations under the License.
+# ============================================================================
+"""Optional event tracing for external verification harnesses.
+
+Disabled unless the environment variable GOOGLE_MATCHED_MARKETS_VERIF=1 is set
+when the package is imported AND a sink has been installed with set_sink().
+Call sites are guarded by `if _verif_trace.ENABLED:` so that the cost with the
+guard off is one attribute test.
+"""
+import os
+
+ENABLED = os.environ.get('GOOGLE_MATCHED_MARKETS_VERIF') == '1'
+
+_sink = None
+
+
+def set_sink(sink):
+  """Installs a callable sink(event: str, fields: dict), or None to remove."""
+  global _sink
+  _sink = sink
+
+
+def emit(event, **fields):
+  """Forwards one event to the installed sink (no-op without a sink)."""
+  if _sink is not None:
+    _sink(event, fields)
